@@ -733,7 +733,7 @@ def gen_trace(seed: int, tier: str) -> dict:
     r = S("config")
     n = r.randint(10, 40) if tier == "quick" else r.randint(25, 120)
     events, sw = common.gen_history(seed, fault_rate=common.fault_arm(seed), n_events=n, families=["c09"], always=("c09",), ckpt=0.05, reopen=0.06, restart=0.03,
-                                    observe=0.01, jump=0.0, fork=0.0, warmup=False)
+                                    observe=0.01, jump=0.0, fork=0.03, warmup=False)
     pre = [dict(e, dt=1.0) for e in kit_events()] + [{"op": "checkpoint", "sink": "seekable", "dt": 1.0}]  # the kit is durable
     return {"property": ID, "seed": seed, "tier": tier, "config": {"max_slides": 40, "max_shapes": 80},
             "start": [_start(S("start"))], "events": pre + events}
